@@ -752,6 +752,10 @@ func (x *Engine) writeSet(fr *Frame, li *loopInfo) (map[string]bool, map[string]
 					} else {
 						arb["AtomicValue"] = true
 					}
+				case "lock":
+					x.regComp("Lock:w", "(Array Int Int)")
+					x.regComp("Lock:r", "(Array Int Int)")
+					arb["Lock:w"], arb["Lock:r"] = true, true
 				case "alloc":
 					keys["$alloc"] = true
 				case "clock":
